@@ -59,7 +59,7 @@ static int v_snprintf(char *buf, size_t len, const char *fmt, const char *a, con
 /* ---- stat model ---- */
 enum { ANS_MISSING, ANS_DIR, ANS_REG };
 static int ans[NDIRS + 1]; /* answer for "<dir k>/<file>", last = the absolute / direct name */
-static char vin_file[3];
+static char vin_file[4];
 /* the second directory name extends the first one: a textual prefix must not be mistaken for "already listed" */
 static const char dirname_of[4][3] = { "a", "ab", "b", "c" };
 static int stat_calls, stat_unknown;
@@ -151,12 +151,21 @@ int main(void)
 			ans[k] = va[k];
 		}
 	}
-	V_FILL_STR(vin_file, 2);
+	V_FILL_STR(vin_file, 3);
 	V_ASSUME(vin_file[0] != 0);
+#ifndef REL_SLASH
+	V_ASSUME(vin_file[2] == 0);
+#else
+	V_ASSUME(vin_file[2] != 0 && vin_file[2] != '/');
+#endif
 #ifdef ABSOLUTE
 	V_ASSUME(vin_file[0] == '/');
 #else
+#ifdef REL_SLASH
+	V_ASSUME(vin_file[0] != '/' && vin_file[1] == '/'); /* a relative name with a directory part: still searched */
+#else
 	V_ASSUME(vin_file[0] != '/' && vin_file[1] != '/'); /* a plain relative name */
+#endif
 #endif
 	r = cfg_searchpath(root.path, vin_file);
 #ifdef ABSOLUTE
